@@ -266,10 +266,21 @@ def same_outcome(x, y):
     return x[1] == y[1] if x[0] == "err" else same_value(x[1], y[1])
 
 
+def _short(text, limit=90):
+    return text if len(text) <= limit else text[:40] + f"...<{len(text)} chars>..." + text[-25:]
+
+
 def describe(o):
+    return _short(_describe(o), 400)
+
+
+def _describe(o):
     if o[0] == "err":
         return "raises " + o[1]
     v = o[1]
+    if isinstance(v, int) and not isinstance(v, bool) and abs(v) >= 10 ** 60:
+        t = str(v) if abs(v) < 10 ** 4000 else "<huge int>"
+        return _short(t) + " (int)"
     try:
         if hasattr(v, "magnitude"):
             m = v.magnitude
@@ -757,5 +768,84 @@ def uncertainty_level(ck, rng, thorough):
                   "nominal and std_dev compared with rel 1e-9",
         "not_generated": "nominal values with digit-group underscores in the concise form (1_0.5(04) is read as +/- 0.04, "
                          "not 0.4: the concise rule only recognises plain decimals) — C19's tokenizer domain",
+    }
+    return fails, cases, meta
+
+
+# ----------------------------------------------------------------------------- large integer literals
+def big_integer_texts(rng, thorough):
+    """integer literals around and above the limits where a detour through a double, a 64-bit
+    integer or a fixed number of digits would show: 2**53, 2**63, 2**64, 2**100, 2**128, 10**k,
+    nanosecond time stamps, random 17..40-digit numbers, a few with digit-group underscores"""
+    vals = set()
+    for p in (31, 32, 52, 53, 54, 62, 63, 64, 65, 100, 127, 128):
+        for d in (-3, -1, 0, 1, 2, 3, 5):
+            vals.add(2 ** p + d)
+    for k in (9, 15, 16, 17, 18, 19, 20, 21, 22, 25, 30, 40, 100, 307, 308, 309, 310, 400):
+        for d in (-1, 0, 1, 7):
+            vals.add(10 ** k + d)
+    vals |= {1700000000123456789, 1700000000123456788, 946684800000000001, 12345678901234567890,
+             9007199254740993, 9007199254740992, 9007199254740991, 18446744073709551615, 99999999999999999999}
+    for _ in range(400 if thorough else 60):
+        nd = rng.choice([16, 17, 17, 18, 19, 19, 20, 22, 25, 30, 40])
+        vals.add(int(str(rng.randint(1, 9)) + "".join(rng.choice("0123456789") for _ in range(nd - 1))))
+    texts = [str(v) for v in sorted(vals) if v > 0]
+    # digit-group underscores (Python integer literal syntax)
+    for v in (9007199254740993, 1700000000123456789, 2 ** 64 + 1):
+        t = str(v)
+        texts.append("_".join([t[max(0, i - 3):i] for i in range(len(t), 0, -3)][::-1]))
+    return texts
+
+
+def literal_level(ck, rng, thorough):
+    """integers stay integers, exactly: every large integer literal, alone and in arithmetic /
+    unit contexts and spellings, through the three entry points and registries, against Python's
+    arithmetic on int(text) (resp. Decimal(text) / Fraction(text)); the float registry's value also
+    goes to the model as a KLitVal case.  Returns (oracle failures, coq cases, replay infos)."""
+    fails, cases, meta = [], [], []
+    nits = (float, Decimal, Fraction)
+    texts = big_integer_texts(rng, thorough)
+    n_eval = 0
+    one, seven = ("num", "1"), ("num", "7")
+    ns, m = ("name", "ns"), ("name", "m")
+
+    def contexts(N):
+        return [N, ("bin", "", N, ns), ("bin", "*", N, ns), ("neg", ("bin", "", N, ns)), ("bin", "+", N, one),
+                ("bin", "-", N, one), ("bin", "//", N, seven), ("bin", "", ("par", N), m), ("bin", "*", ("num", "3"), N),
+                ("bin", "", N, ("bin", "**", ns, ("num", "2"))), ("bin", "/", ("bin", "", N, ns), ("bin", "", N, ns)),
+                ("bin", "-", ("bin", "", N, ns), ("bin", "", ("num", "1"), ns))]
+    ureg = registry(float)
+    for i, txt in enumerate(texts):
+        N = ("num", txt)
+        # the literal alone: exact value and type in the float registry -> model
+        got = outcome(lambda: ureg.parse_expression(txt))
+        if got[0] == "ok" and type(got[1]) is int:
+            cases.append(f"KLitVal {T.coq_str(txt)} {got[1]}%N")
+        else:
+            cases.append(f"KLitVal {T.coq_str(txt)} 0%N")      # not an int: the model disagrees
+        meta.append({"stream": "large-literal", "string": txt, "pint": describe(got)})
+        ck.count("large literals:alone")
+        ctxs = contexts(N)
+        if not thorough and i % 3:
+            ctxs = [ctxs[0]] + rng.sample(ctxs[1:], 3)
+        for e in ctxs:
+            cst = T.parenthesize("min", e) if e[0] != "bin" or e[2][0] != "par" else e
+            for fancy in (False, True):
+                s_, src, leaves = to_string(rng, cst, fancy=fancy)
+                for nit in (nits if (thorough or i % 4 == 0) else (float,)):
+                    paths = ["parse_expression"]
+                    if fancy:
+                        paths += ["Quantity", "from_string"]
+                    n_eval += check_string(ck, fails, nit, s_, src, leaves, paths, stream="large-literals")
+            ck.case(key=("biglit", T.show(e)), nontrivial=True,
+                    sample={"string": _short(txt) + " ns"} if i % 40 == 0 and len(ck.samples) < 8 else None)
+        # glued spelling "123ns" (the preprocessor inserts the *)
+        n_eval += check_string(ck, fails, float, txt + "ns", "L0*L1", [N, ns], ["parse_expression"], stream="large-literals")
+    ck.extra["literal_level"] = {
+        "evaluations": n_eval, "literals": len(texts),
+        "classes": "2**p + d for p in 31..128, 10**k + d for k in 9..400, nanosecond time stamps, random 16..40-digit "
+                   "integers, digit-group underscores",
+        "oracle": "Python arithmetic on int(text) (float registry), Decimal(text), Fraction(text) and the named quantities; "
+                  "exact equality of value and type",
     }
     return fails, cases, meta
